@@ -1063,7 +1063,7 @@ cached:
             now = datetime.datetime.now(datetime.UTC)
             for key in self._sort_cache():
                 delta = now - self._cache_entries[key].ctime
-                if delta.seconds > self._expiration_threshold:
+                if delta.total_seconds() > self._expiration_threshold:
                     self._remove_from_cache([key])
                 else:
                     # We're already in date order.
